@@ -127,3 +127,52 @@ def replay_unexpanded_invoke(a0, a1, n):
     return (f"expand({doc!r}, expand_invoke=False)", out != doc or w.expand_stack != ["T"], f"result {out!r}, expansion path {w.expand_stack}")
 
 
+
+
+# ---------------------------------------------------------------- the selection is per call, not per page
+_HIST = Wtp(quiet=True, quiet_output=True)
+_HIST.add_page("Template:keep", 10, "KEEP({{{1}}})")
+_HIST.add_page("Template:other", 10, "OTHER")
+_HIST.db_conn.commit()
+DOC = "{{keep|a}} {{other}}"
+
+
+def _sel(in_e: bool, e_none: bool, in_ne: bool, ne_none: bool):
+    kw = {"pre_expand": True}
+    if not e_none:
+        kw["templates_to_expand"] = {"keep", "x"} if in_e else {"x"}
+    if not ne_none:
+        kw["templates_to_not_expand"] = {"keep", "y"} if in_ne else {"y"}
+    return kw
+
+
+def second_call_ok(e1: bool, n1: bool, ne1: bool, nn1: bool, e2: bool, n2: bool, ne2: bool, nn2: bool, restart: bool) -> bool:
+    """two expand() calls on ONE page with independent selections: the second result equals what a context that never made
+    the first call returns"""
+    _HIST.start_page("T")
+    _HIST.expand(DOC, **_sel(e1, n1, ne1, nn1))
+    if restart:
+        _HIST.start_page("T")
+    got = _HIST.expand(DOC, **_sel(e2, n2, ne2, nn2))
+    want_keep = rule(True, False, n2, e2, nn2, ne2)
+    want = ("KEEP(a)" if want_keep else "{{keep|a}}") + " {{other}}"
+    return got == want
+
+
+def replay_second_call(e1, n1, ne1, nn1, e2, n2, ne2, nn2, restart):
+    w = Wtp(quiet=True, quiet_output=True)
+    w.add_page("Template:keep", 10, "KEEP({{{1}}})")
+    w.add_page("Template:other", 10, "OTHER")
+    w.start_page("T")
+    k1, k2 = _sel(e1, n1, ne1, nn1), _sel(e2, n2, ne2, nn2)
+    w.expand(DOC, **k1)
+    if restart:
+        w.start_page("T")
+    got = w.expand(DOC, **k2)
+    f = Wtp(quiet=True, quiet_output=True)
+    f.add_page("Template:keep", 10, "KEEP({{{1}}})")
+    f.add_page("Template:other", 10, "OTHER")
+    f.start_page("T")
+    want = f.expand(DOC, **k2)
+    fmt = lambda k: ", ".join(f"{a}={sorted(b) if isinstance(b, set) else b}" for a, b in k.items())  # noqa: E731
+    return (f"one page: expand({DOC!r}, {fmt(k1)}); {'start_page; ' if restart else ''}expand({DOC!r}, {fmt(k2)})", got != want, f"second call returns {got!r}, a context without the first call returns {want!r}")
